@@ -841,8 +841,7 @@ func (e *env) applyVerdict(rec *opRec, res *spb.AFTResult, foreign bool) {
 // (any more). Nothing obliges a server to keep such an operation (C06: "unless ... the stream ended, or its
 // session lost the primary role"); one that discards it is followed - the operation will never resolve.
 func (e *env) discarded(rec *opRec, implHolds map[uint64]bool) bool {
-	rs := e.sess[rec.sess]
-	if rec.state != opHeld || implHolds[rec.op.GetId()] || !(rs.dead || rs.closed || rs.elec != e.maxElec) {
+	if rec.state != opHeld || implHolds[rec.op.GetId()] || !e.sessionGone(rec) {
 		return false
 	}
 	// (whatever the model would say about it now: a server may discard it at the hand-over, or later when it
